@@ -335,39 +335,7 @@ func rulesC04(c *Ctx) {
 		c.Pin("cancel by id", roles["by-id"], 1)
 	})
 
-	c.Rule("R-C04-6", "an undeliverable notice does not break the session: a failed write marks the writer broken only when the write's own context has not ended and the error is not a per-message rejection", func() {
-		wr := c.Fn(pJ, "Connection", "write")
-		g := wr.Graph()
-		writeErr := c.Field(pJ, "inFlightState", "writeErr")
-		errIs := c.Std("errors", "", "Is")
-		eRej := c.Obj(pJ, "ErrRejected")
-		ctxParam := wr.Param("ctx")
-		n := 0
-		for _, s := range c.uifSites(wr) {
-			if len(s.Lit.FieldWrites(s.Lit.Body, writeErr, false)) == 0 {
-				continue
-			}
-			n++
-			guards := g.GuardsAt(g.VertexOf(s.Call))
-			ctxAlive := hasAtom(guards, func(a Atom) bool {
-				return AtomSaysNil(a, true, func(e ast.Expr) bool {
-					ce, ok := ast.Unparen(e).(*ast.CallExpr)
-					if !ok {
-						return false
-					}
-					sel, ok := ast.Unparen(ce.Fun).(*ast.SelectorExpr)
-					return ok && sel.Sel.Name == "Err" && wr.ObjOf(sel.X) == ctxParam
-				})
-			})
-			notRejected := hasAtom(guards, func(a Atom) bool {
-				ce, ok := a.E.(*ast.CallExpr)
-				return ok && !a.Val && wr.IsCallTo(ce, errIs) && len(ce.Args) == 2 && wr.ObjOf(ce.Args[1]) == eRej
-			})
-			c.Check(ctxAlive && notRejected, "write:broken-only-if-ctx-alive-and-not-rejected", wr, s.Call,
-				"writeErr (which cancels every handler and refuses all further calls) is set only under ctx.Err() == nil && !errors.Is(err, ErrRejected) (guards: %s): a cancel notice that times out or is rejected must leave the session usable", atomsString(guards))
-		}
-		c.Pin("writeErr closure", n, 1)
-	})
+	c.Rule("R-C04-6", "an undeliverable notice does not break the session: a failed write marks the writer broken only when the write's own context has not ended and the error is not a per-message rejection", func() { ruleWriteErrGuard(c) })
 
 	c.Rule("R-C04-4", "a late response to an abandoned call is discarded without effect (shared with R-C01-5)", func() { responseArmRule(c) })
 
@@ -569,3 +537,38 @@ func splitComma(s string) []string {
 	}
 	return append(out, cur)
 }
+
+// ruleWriteErrGuard is shared by R-C04-6 and R-C13-4.
+func ruleWriteErrGuard(c *Ctx) {
+		wr := c.Fn(pJ, "Connection", "write")
+		g := wr.Graph()
+		writeErr := c.Field(pJ, "inFlightState", "writeErr")
+		errIs := c.Std("errors", "", "Is")
+		eRej := c.Obj(pJ, "ErrRejected")
+		ctxParam := wr.Param("ctx")
+		n := 0
+		for _, s := range c.uifSites(wr) {
+			if len(s.Lit.FieldWrites(s.Lit.Body, writeErr, false)) == 0 {
+				continue
+			}
+			n++
+			guards := g.GuardsAt(g.VertexOf(s.Call))
+			ctxAlive := hasAtom(guards, func(a Atom) bool {
+				return AtomSaysNil(a, true, func(e ast.Expr) bool {
+					ce, ok := ast.Unparen(e).(*ast.CallExpr)
+					if !ok {
+						return false
+					}
+					sel, ok := ast.Unparen(ce.Fun).(*ast.SelectorExpr)
+					return ok && sel.Sel.Name == "Err" && wr.ObjOf(sel.X) == ctxParam
+				})
+			})
+			notRejected := hasAtom(guards, func(a Atom) bool {
+				ce, ok := a.E.(*ast.CallExpr)
+				return ok && !a.Val && wr.IsCallTo(ce, errIs) && len(ce.Args) == 2 && wr.ObjOf(ce.Args[1]) == eRej
+			})
+			c.Check(ctxAlive && notRejected, "write:broken-only-if-ctx-alive-and-not-rejected", wr, s.Call,
+				"writeErr (which cancels every handler and refuses all further calls) is set only under ctx.Err() == nil && !errors.Is(err, ErrRejected) (guards: %s): a cancel notice that times out or is rejected must leave the session usable", atomsString(guards))
+		}
+		c.Pin("writeErr closure", n, 1)
+	}
